@@ -121,6 +121,7 @@ let () =
      | None -> print_string "NOTREE\n"
      | Some t ->
        Printf.printf "WFTREE %b\n" (wf_root t);
+       Printf.printf "T1OK %b\n" (t1_ok t);
        (match entries_stack t with
         | Some es when es = entries t -> print_string "STACK same\n"
         | Some _ -> print_string "STACK differ\n"
